@@ -24,7 +24,7 @@ Ev == Trace[l]
 Absent == [exists |-> FALSE]
 Chk(ok, guard, sig) == IF ok THEN <<>> ELSE <<[line |-> l, guard |-> guard, sig |-> sig]>>
 
-St0(cfg) == [cfg |-> cfg, claim |-> Absent, lastClaim |-> Absent, node |-> Absent,
+St0(cfg) == [cfg |-> cfg, claim |-> Absent, lastClaim |-> Absent, nodes |-> <<>>,  \* nodes: name -> record
              minDl |-> -1,                           \* ghost: earliest termination time the NodeClaim ever carried
              pods |-> <<>>, vas |-> <<>>,           \* name -> record
              inst |-> <<>>,                          \* provider instance table (sequence)
@@ -32,7 +32,7 @@ St0(cfg) == [cfg |-> cfg, claim |-> Absent, lastClaim |-> Absent, node |-> Absen
              lostPids |-> {},                        \* ghost: created pids that were not persisted when the process restarted
              queue |-> <<>>,                         \* pod name -> [uid, dl] as projected after the last reconcile
              qU |-> <<>>,                            \* ghost: pod uid -> earliest deadline it was queued under (this process)
-             ctl |-> "-",                            \* controller whose reconcile is running
+             ctl |-> "-", obj |-> "-",               \* controller whose reconcile is running, and its object
              view |-> Absent,                        \* the informer copy an eviction-queue reconcile was handed
              \* what the running node-termination reconcile read: pods / volume attachments of the node at its last
              \* list call (only known when reads are logged; otherwise the store at the instant of the write is used,
@@ -49,7 +49,8 @@ VasOn(nodeName) == {v \in Recs(st.vas) : v.node = nodeName}
 Karpenter == Ev.actor # "env"
 Post == IF Ev.gone THEN Absent ELSE Ev.post
 IsClaim == Ev.kind = "NodeClaim" /\ Ev.name = st.cfg.claim
-IsNode == Ev.kind = "Node" /\ Ev.name = st.cfg.node
+IsNode == Ev.kind = "Node"
+NodePre == IF Ev.name \in DOMAIN st.nodes THEN st.nodes[Ev.name] ELSE Absent
 \* the deadline of the node: the NodeClaim's termination timestamp (last seen, the claim may be gone)
 NodeDeadline == IF st.lastClaim.exists THEN st.lastClaim.terminationAt ELSE -1
 TgpSet == st.lastClaim.exists /\ st.lastClaim.tgp >= 0
@@ -61,7 +62,7 @@ DlLenient(p) == DlMin(DlOf(p), st.minDl)
 
 \* ---------------------------------------------------------------- C09
 FinalizerRemoved(pre, post) == pre.exists /\ pre.finalizer /\ (~post.exists \/ ~post.finalizer)
-NodePids == {n.providerID : n \in {x \in {st.node} : x.exists}}
+NodePids == {n.providerID : n \in Recs(st.nodes)}
 
 \* witness class: which created instances are not confirmed gone
 \*   all of them had not been persisted in status.providerID when the controller restarted (the launch cache, their only
@@ -142,12 +143,12 @@ TApi ==
        IN /\ st' = [st EXCEPT !.claim = claim2,
                               !.lastClaim = IF claim2.exists THEN claim2 ELSE @,
                               !.minDl = IF claim2.exists THEN DlMin(@, claim2.terminationAt) ELSE @,
-                              !.node = IF IsNode /\ ok THEN post ELSE @,
+                              !.nodes = IF IsNode /\ ok THEN Upd(@, Ev.name, post) ELSE @,
                               !.pods = IF Ev.kind = "Pod" /\ ok THEN Upd(@, Ev.name, post) ELSE @,
                               !.vas = IF Ev.kind = "VolumeAttachment" /\ ok THEN Upd(@, Ev.name, post) ELSE @]
           /\ viol' = viol
                \o (IF IsClaim /\ ok THEN ClaimChecks(st.claim, post) ELSE <<>>)
-               \o (IF IsNode /\ ok THEN NodeChecks(st.node, post) ELSE <<>>)
+               \o (IF IsNode /\ ok THEN NodeChecks(NodePre, post) ELSE <<>>)
                \o (IF Ev.kind = "Pod" THEN PodChecks(PodPre, post, ok) ELSE <<>>)
 
 TEnv ==
@@ -156,7 +157,7 @@ TEnv ==
        st' = [st EXCEPT !.claim = claim2,
                         !.lastClaim = IF claim2.exists THEN claim2 ELSE @,
                         !.minDl = IF claim2.exists THEN DlMin(@, claim2.terminationAt) ELSE @,
-                        !.node = IF IsNode THEN Ev.post ELSE @,
+                        !.nodes = IF IsNode THEN Upd(@, Ev.name, Ev.post) ELSE @,
                         !.pods = IF Ev.kind = "Pod" THEN Upd(@, Ev.name, Ev.post) ELSE @,
                         !.vas = IF Ev.kind = "VolumeAttachment" THEN Upd(@, Ev.name, Ev.post) ELSE @]
     /\ UNCHANGED viol
@@ -172,12 +173,12 @@ TProv ==
 
 NoObs == [valid |-> FALSE, set |-> {}]
 TBegin == /\ Ev.e = "Begin" /\ UNCHANGED viol
-          /\ st' = [st EXCEPT !.ctl = Ev.controller, !.view = Ev.view, !.obsP = NoObs, !.obsV = NoObs]
+          /\ st' = [st EXCEPT !.ctl = Ev.controller, !.obj = Ev.object, !.view = Ev.view, !.obsP = NoObs, !.obsV = NoObs]
 \* a logged read of the node termination controller: remember what it saw
 TRead == /\ Ev.e = "Read" /\ UNCHANGED viol
          /\ LET mine == Ev.actor = "node.termination" /\ Ev.verb = "list" /\ Ev.err = "-" IN
-            st' = [st EXCEPT !.obsP = IF mine /\ Ev.kind = "Pod" THEN [valid |-> TRUE, set |-> PodsOn(st.cfg.node)] ELSE @,
-                             !.obsV = IF mine /\ Ev.kind = "VolumeAttachment" THEN [valid |-> TRUE, set |-> VasOn(st.cfg.node)] ELSE @]
+            st' = [st EXCEPT !.obsP = IF mine /\ Ev.kind = "Pod" THEN [valid |-> TRUE, set |-> PodsOn(st.obj)] ELSE @,
+                             !.obsV = IF mine /\ Ev.kind = "VolumeAttachment" THEN [valid |-> TRUE, set |-> VasOn(st.obj)] ELSE @]
 TEnd == /\ Ev.e = "End" /\ UNCHANGED st
         /\ viol' = viol \o Chk(~Ev.panic, IF Ev.controller = "eviction-queue" THEN "Inv_C10_NoPanic" ELSE "Inv_C09_NoPanic", Ev.controller)
 TMem ==
